@@ -302,6 +302,36 @@ def to_json_schema_returns_state():
     return found
 
 
+def wrapper_delegation():
+    """{wrapper kind: which option `<Wrapper>.serialize` hands every value to}, read off multified_wrappers.py:
+    `return <self.get_fields()[0]>.serialize(value)` -> "first"; `self._not_nonefield.serialize(value)` with
+    `_not_nonefield` assigned inside the loop over the options in `__init__` -> "last-non-none";
+    `raise` -> "raises"; anything else -> "first-fit" (value directed)"""
+    tree = _parse("fields/multified_wrappers.py")
+    out = {}
+    for kind, cls in (("anyOf", "AnyOf"), ("allOf", "AllOf"), ("oneOf", "OneOf"), ("notF", "NotField")):
+        fn = _find(tree, cls, "serialize")
+        if fn is None:
+            out[kind] = "first-fit"
+            continue
+        src = ast.unparse(fn)
+        if any(isinstance(n, ast.Raise) for n in ast.walk(fn)) and not any(isinstance(n, ast.Return) for n in ast.walk(fn)):
+            out[kind] = "raises"
+        elif "_not_nonefield" in src:
+            init = _find(tree, cls, "__init__")
+            loops = [n for n in ast.walk(init) if isinstance(n, ast.For)] if init else []
+            in_loop = any("_not_nonefield" in ast.unparse(l) for l in loops)
+            brk = any(isinstance(n, ast.Break) for l in loops for n in ast.walk(l))
+            out[kind] = ("first-non-none" if brk else "last-non-none") if in_loop else "first-fit"
+        elif "get_fields()[0]" in src:
+            out[kind] = "first"
+        elif "get_fields()[-1]" in src:
+            out[kind] = "last"
+        else:
+            out[kind] = "first-fit"
+    return out
+
+
 def wrapper_ctor_copies():
     """{kind: True/False}: the typed wrapper's constructor copies the incoming collection (`super().__init__(x)`)"""
     tree = _parse("fields/collections_impl.py")
@@ -316,9 +346,32 @@ def wrapper_ctor_copies():
     return out
 
 
+def owner_copy_idioms():
+    """{"in": bool, "set": bool, "out": bool}: the defensive deep copies of immutable owners, read off structures.py —
+    `Structure.__setattr__` (`value = deepcopy(value) ...` under an IS_IMMUTABLE test), `Field.__set__`
+    (`deepcopy(value)` under IS_IMMUTABLE) and `Field.__get__` (`return deepcopy(res) if (is_immutable ...`)"""
+    tree = _parse("structures/structures.py")
+
+    def has_deepcopy_of(fn, name):
+        if fn is None:
+            return None
+        guarded = "IS_IMMUTABLE" in ast.unparse(fn) or "is_immutable" in ast.unparse(fn)
+        calls = [n for n in ast.walk(fn) if isinstance(n, ast.Call) and ast.unparse(n.func).endswith("deepcopy")
+                 and n.args and isinstance(n.args[0], ast.Name) and n.args[0].id == name]
+        return bool(calls) and guarded
+    return {"in": has_deepcopy_of(_find(tree, "Structure", "__setattr__"), "value"),
+            "set": has_deepcopy_of(_find(tree, "Field", "__set__"), "value"),
+            "out": has_deepcopy_of(_find(tree, "Field", "__get__"), "res")}
+
+
 def ast_readings():
     """{(op, kind, cat): astMode}"""
     out = {}
+    own = owner_copy_idioms()
+    for op, key in (("construct", "in"), ("deserialize", "in"), ("setattr", "set"), ("serialize", "out"),
+                    ("fieldSerialize", "out"), ("fastSerialize", "out")):
+        if own.get(key) is not None:
+            out[(op, "owner", "none")] = "deep" if own[key] else "alias"
     delegates = fast_delegates()
     for kind in list(COLL_FILES) + ["immSet"]:
         modes = coll_serialize_modes("set" if kind == "immSet" else kind)
@@ -364,7 +417,7 @@ def probe_row(op, kind, cat, impl, node_path):
     paths = [list(p) for p in impl.get("shared_paths", [])]
     node_shared = node_path in paths
     below = _descendant_shared(paths, node_path)
-    leaf_site = kind in ("any", "document", "mapping", "names", "required", "enumValues", "default", "schema",
+    leaf_site = kind in ("any", "owner", "document", "mapping", "names", "required", "enumValues", "default", "schema",
                          "fieldState")
     is_input = op in ("construct", "setattr", "deserialize", "derive")
     aliased = node_shared or (leaf_site and kind not in ("any",) and below)
@@ -383,7 +436,8 @@ def mode_of_row(op, kind, row):
     if row["returns"] == "raises":
         return "error"
     is_input = op in ("construct", "setattr", "deserialize", "derive")
-    leaf = kind in ("any", "document", "mapping", "names", "required", "enumValues", "default", "schema", "fieldState")
+    leaf = kind in ("any", "owner", "document", "mapping", "names", "required", "enumValues", "default", "schema",
+                    "fieldState")
     if is_input:
         return "alias" if row["retainsArg"] else "shallow" if row["shallow"] else "deep" if leaf or row.get("deep") else "rebuild"
     if row["returns"] in ("fresh", "scalar"):
@@ -432,9 +486,9 @@ def probe_all():
             impl = S.run_impl(c)
             if "unbuildable" in impl:
                 continue
-            node = [] if op in ("setattr", "fieldSerialize") else ["f"]
-            chain = S.site_chain(impl.get("shape") or {"s": "scalar"}, node)
-            if (kind, cat) not in [(k, c) for d, k, c in chain if d == len(node)]:
+            node = [] if op in ("setattr", "fieldSerialize") else ["opt"] if kind == "owner" else ["f"]
+            chain = S.site_chain(impl.get("rshape") or impl.get("shape") or {"s": "scalar"}, node)
+            if kind != "owner" and (kind, cat) not in [(k, c) for d, k, c in chain if d == len(node)]:
                 continue      # for this operation the witness does not exercise that site (value-directed shape)
             r = probe_row(op, kind, cat, impl, node)
             paths = [list(q) for q in impl.get("shared_paths", [])] if impl.get("ok") else []
